@@ -6,7 +6,7 @@ from lib.common import run_tasks, finish
 MOD = 'contracts.secflt_native'
 # number of slices (quick, thorough) of the input domain of the heavier natives; all others run whole, the light ones bundled
 SLICES = {'add_s6e5': (6, 4), 'sub_s6e5': (1, 4), 'div_s6e5': (1, 1), 'add_s8e5': (4, 16), 'sub_s8e5': (1, 4), 'mul_s8e5': (1, 2), 'div_s8e5': (2, 6),
-          'zero_operand': (6, 12), 'mixed_s8e5': (1, 2), 'mixed_s24e8': (1, 4), 'mixed_s53e11': (1, 4),
+          'zero_operand': (6, 12), 'mixed_s8e5': (1, 2), 'mixed_s24e8': (1, 6), 'mixed_s53e11': (1, 4),
           'add_s24e8': (1, 2), 'sub_s24e8': (1, 2), 'div_s24e8': (1, 2), 'add_s53e11': (1, 2), 'sub_s53e11': (1, 2), 'div_s53e11': (2, 4), 'mul_s53e11': (1, 1)}
 SLICES.update({f'{op}_s8e5': (1, 2) for op in ('lt', 'le', 'eq', 'ge', 'gt', 'ne')})
 SLICES.update({f'{op}_s53e11': (1, 1) for op in ('lt', 'le', 'eq', 'ge', 'gt', 'ne')})
